@@ -1,5 +1,8 @@
 import Votca.Model.C09
 import Mathlib.Tactic.Linarith
+import Mathlib.Analysis.InnerProductSpace.Spectrum
+import Mathlib.Analysis.InnerProductSpace.PiL2
+import Mathlib.Analysis.Matrix.Spectrum
 /-! # C09 — what is proved about the Davidson solver: the status logic, not the numerics
 
 `success` is reported exactly when every requested root passed the residual test at the final iteration; otherwise the
@@ -55,5 +58,62 @@ theorem converged_kept (tol : Rat) (neigen : Nat) (res lam : List Rat) (h : conv
 /-- the certificate on a diagonal matrix counts the diagonal entries below the shift (sanity of the elimination) -/
 example : countBelow [[1, 0, 0], [0, 3, 0], [0, 0, 5]] 4 = some 2 ∧ countBelow [[2, 1], [1, 2]] (5 / 2) = some 1 ∧ countBelow [[2, 1], [1, 2]] 0 = some 0 := by
   decide +kernel
+
+/-! ## why the residual test pins down eigenvalues
+
+The certificates of the check (and the solver's own convergence test) are residuals.  Over the reals, for a symmetric operator, a small
+residual of a unit vector encloses an eigenvalue: this is the link between what is computed per run and the spectrum the property
+speaks about.  (That the enclosed eigenvalues are the LOWEST ones is decided per run by the inertia count — Sylvester's law is
+assumed, not proved, see DESIGN.md.) -/
+
+open scoped RealInnerProductSpace
+open Module
+
+variable {E : Type*} [NormedAddCommGroup E] [InnerProductSpace ℝ E] [FiniteDimensional ℝ E]
+
+/-- **residual enclosure**: if a unit vector `v` has residual `‖T v - θ v‖ ≤ ε` for a symmetric operator `T`, then some eigenvalue of
+    `T` lies within `ε` of `θ` — the reason why the residual test of the solver (and of the certificates) pins down eigenvalues -/
+theorem residual_enclosure {n : ℕ} (T : E →ₗ[ℝ] E) (hT : T.IsSymmetric) (hn : finrank ℝ E = n) (v : E) (hv : ‖v‖ = 1)
+    (θ ε : ℝ) (h : ‖T v - θ • v‖ ≤ ε) : ∃ i, |hT.eigenvalues hn i - θ| ≤ ε := by
+  by_contra hcon
+  push Not at hcon
+  have hε : 0 ≤ ε := le_trans (norm_nonneg _) h
+  let b := hT.eigenvectorBasis hn
+  have hcoef : ∀ i, ⟪b i, T v - θ • v⟫ = (hT.eigenvalues hn i - θ) * ⟪b i, v⟫ := by
+    intro i
+    rw [inner_sub_right, inner_smul_right, ← hT (b i) v, hT.apply_eigenvectorBasis hn i]
+    rw [inner_smul_left]
+    simp
+    ring
+  have h1 : ∑ i, ⟪b i, T v - θ • v⟫ ^ 2 = ‖T v - θ • v‖ ^ 2 := b.sum_sq_inner_right _
+  have h2 : ∑ i, ⟪b i, v⟫ ^ 2 = 1 := by rw [b.sum_sq_inner_right, hv]; norm_num
+  have hex : ∃ i, ⟪b i, v⟫ ≠ 0 := by
+    by_contra hall
+    push Not at hall
+    simp [hall] at h2
+  have hlt : ∑ i, ε ^ 2 * ⟪b i, v⟫ ^ 2 < ∑ i, ⟪b i, T v - θ • v⟫ ^ 2 := by
+    apply Finset.sum_lt_sum
+    · intro i _
+      rw [hcoef i, mul_pow]
+      apply mul_le_mul_of_nonneg_right _ (sq_nonneg _)
+      have := hcon i
+      calc ε ^ 2 ≤ |hT.eigenvalues hn i - θ| ^ 2 := by apply pow_le_pow_left₀ hε this.le
+        _ = (hT.eigenvalues hn i - θ) ^ 2 := sq_abs _
+    · obtain ⟨i, hi⟩ := hex
+      refine ⟨i, Finset.mem_univ i, ?_⟩
+      rw [hcoef i, mul_pow]
+      apply mul_lt_mul_of_pos_right _ (by positivity)
+      have := hcon i
+      calc ε ^ 2 < |hT.eigenvalues hn i - θ| ^ 2 := by apply pow_lt_pow_left₀ this hε (by norm_num)
+        _ = (hT.eigenvalues hn i - θ) ^ 2 := sq_abs _
+  rw [← Finset.mul_sum, h2, mul_one, h1] at hlt
+  have : ‖T v - θ • v‖ ^ 2 ≤ ε ^ 2 := pow_le_pow_left₀ (norm_nonneg _) h 2
+  linarith
+
+/-- the same for a real symmetric matrix acting on Euclidean space: the eigenvalues are Mathlib's `Matrix.IsHermitian.eigenvalues₀` -/
+theorem matrix_residual_enclosure {n : Type} [Fintype n] [DecidableEq n] (A : Matrix n n ℝ) (hA : A.IsHermitian)
+    (v : EuclideanSpace ℝ n) (hv : ‖v‖ = 1) (θ ε : ℝ) (h : ‖Matrix.toEuclideanLin A v - θ • v‖ ≤ ε) :
+    ∃ i, |hA.eigenvalues₀ i - θ| ≤ ε :=
+  residual_enclosure (Matrix.toEuclideanLin A) (Matrix.isSymmetric_toEuclideanLin_iff.mpr hA) finrank_euclideanSpace v hv θ ε h
 
 end Votca.C09
